@@ -402,9 +402,40 @@ func (ep *episode) runLoad() *Result {
 				res.Verdict, res.Class, res.Msg = "harness-error", "write", err.Error()
 				return res
 			}
+			// what the path is, as a storage-side variation: a symlink to the file, a
+			// directory, a character device, a name with odd characters
+			for _, op := range j.Ops {
+				switch op {
+				case "as-symlink":
+					lp := p + ".lnk"
+					os.Symlink(p, lp)
+					p = lp
+					applied++
+				case "as-directory":
+					os.Remove(p)
+					os.Mkdir(p, 0o755)
+					applied++
+				case "as-devnull":
+					p = "/dev/null"
+					applied++
+				case "as-devzero":
+					p = "/dev/zero"
+					applied++
+				case "as-missing":
+					os.Remove(p)
+					applied++
+				case "odd-name":
+					np := filepath.Join(ep.dir, fmt.Sprintf("c%d 100%%d%%s ünï .STL.bak", j.ID))
+					os.Rename(p, np)
+					p = np
+					applied++
+				}
+			}
 			entry := j.Model
 			o := guardedLoad(entry, p)
-			os.Remove(p)
+			if !strings.HasPrefix(p, "/dev/") {
+				os.RemoveAll(p)
+			}
 			jr.Returned = !o.hang
 			jr.Items = o.n
 			jr.FaultFired = applied > 0
